@@ -44,6 +44,12 @@ def run(ctx):
                 "adjusted thread-local delta is written back or published on every path.")
     n = efreelist.check_count_bookkeeping(ctx, F)
     efreelist.check_terminal_gc(ctx, F)
+    ctx.explain("E-FREELIST.term.link: the dynamic terminal store's free list, interpreted: gc's sweep closure links each dead slot in front "
+                "of the local head (4 -> 2 -> 7, no self-loop), the retain predicate keeps exactly the terminals whose count is not 1, "
+                "get_edge pops the head for a new value (count 2, id entered in the table) and answers OutOfMemory exactly at the "
+                "end of the store.")
+    ntl = efreelist.check_terminal_links(ctx, F)
+    ctx.floor("E-FREELIST.term.link", "interpreted terminal free-list situations", ntl, 7)
     ecfg.check_slab_data_type(ctx, F)
     ctx.explain("E-LIN.forget: where the managers dispose of an owned edge by hand (mem::forget + explicit release), every "
                 "path that forgets the edge also releases the reference.")
